@@ -268,8 +268,14 @@ AllIdsIn(e) == Range(e.ids) \cup RetIds(e) \cup Range(e.ret.ids2) \cup Range(e.p
                \cup {e.cbs[i].id : i \in DOMAIN e.cbs}
                \cup UNION {Range(e.rows[r].ids) : r \in DOMAIN e.rows}
 
-FaultTag(S, e) == LET k == IF e.inj THEN FaultKind(e) ELSE S.taint IN
-                  CASE k = "drop" -> "C05" [] k = "user" -> "C06" [] k = "forget" -> "C10" [] OTHER -> "C03"
+\* (constructors and conversions promise "destroyed exactly once, independently owned" also when user code
+\* panics inside them: their ownership clauses are charged to C12 as well)
+FaultTag(S, e) == LET k == IF e.inj THEN FaultKind(e) ELSE S.taint
+                      conv == e.op \in CtorOps \cup {"clone", "clone_from", "to_vec", "into_iter"} IN
+                  CASE k = "drop" -> (IF conv THEN "C05,C12" ELSE "C05")
+                    [] k = "user" -> (IF conv THEN "C06,C12" ELSE "C06")
+                    [] k = "forget" -> "C10"
+                    [] OTHER -> (IF conv THEN "C03,C12" ELSE "C03")
 
 (***************************************************************************)
 (* Clauses that hold for every call, whatever it is.                       *)
@@ -387,7 +393,7 @@ FaultFail(S, e) ==
   \cup Chk(~e.post.obs \/ \A i \in DOMAIN e.post.seq : e.post.vals[i] = NewVal(S, e, e.post.seq[i]), tag, "payload")
   \cup \* user-code panics must not leak: with no buffer left to hold them, nothing may be unaccounted
        Chk(FaultKind(e) = "drop" \/ e.op \notin CtorOps \cup {"clone", "to_vec", "drop_buf", "caller_drop"}
-           \/ Unaccounted(S, e) = {}, "C06", "leak")
+           \/ Unaccounted(S, e) = {}, IF e.op \in CtorOps \cup {"clone", "to_vec"} THEN "C06,C12" ELSE "C06", "leak")
 
 (***************************************************************************)
 (* Views (iterators, drains).                                              *)
@@ -421,6 +427,8 @@ ViewFail(S, e) ==
              Chk(e.ret.k = "ids" /\ e.ret.ids = (IF e.i = 1 THEN Rev(w) ELSE w), vh, "rest")
       [] op = "v_clone" ->
              Chk(e.ret.k = "n" /\ e.ret.n = Len(w), vh, "clone_len")
+      [] op = "v_debug" ->      \* Debug of a view lists exactly the elements it has not produced yet
+             Chk(e.ret.k = "str" /\ e.ret.b /\ e.ret.ids2 = Vals(S, w), vh, "debug")
       [] op = "v_drop" ->
              (IF vw.kind = "drain"
               THEN    Chk(~e.post.obs \/ e.post.seq = Take(vw.pre, vw.a) \o DropN(vw.pre, vw.b), "C01,C09", "contents_after_drain")
@@ -531,7 +539,7 @@ ByteFail(S, e) ==
     ELSE IF e.op = "poison" THEN Chk(ps = seq, pr, "contents")
     ELSE
          Chk(~e.unw, "C11", "unexpected_panic") \cup Chk(~e.unw, pr, "unexpected_panic")
-    \cup Chk(e.ret.k # "err", pr, "io_error")
+    \cup Chk(e.ret.k # "err" /\ (e.ret.k # "eof" \/ e.op = "read_exact"), pr, "io_error")
     \cup Chk(~e.ret.b, "C16", "future_pending")
     \cup PostFail(S, e, pr)
     \cup (IF e.unw THEN {} ELSE
@@ -540,6 +548,13 @@ ByteFail(S, e) ==
              \cup Chk(ps = LastN(seq \o e.vals, cap), pr, "contents")
             [] e.op = "flush" -> Chk(e.ret.k = "ok", pr, "flush") \cup Chk(ps = seq, pr, "contents")
             [] e.op = "extend_ref" -> Chk(ps = LastN(seq \o e.vals, cap), "C01", "contents")
+            [] e.op = "write_all" -> Chk(e.ret.k = "ok", pr, "write_all") \cup Chk(ps = LastN(seq \o e.vals, cap), pr, "contents")
+            [] e.op = "read_exact" ->      \* fills the destination or reports end-of-input (then what was consumed is unspecified)
+                  IF e.i <= n
+                  THEN    Chk(e.ret.k = "ok" /\ e.ret.ids = Take(seq, e.i), pr, "read_exact")
+                     \cup Chk(ps = DropN(seq, e.i), pr, "contents")
+                  ELSE    Chk(e.ret.k = "eof", pr, "read_exact")
+                     \cup Chk(Len(ps) <= n /\ ps = LastN(seq, Len(ps)), pr, "contents")
             [] e.op = "read" ->
                   LET k == Min(e.i, n) IN
                   Chk(e.ret.k = "n" /\ e.ret.n = k, pr, "read_count")
